@@ -9,10 +9,10 @@ import (
 
 // Map iteration order is a source of nondeterminism the harness owns.
 const (
-	MapNative = iota // Go's randomised order (default outside harnesses)
-	MapSorted        // ascending keys
-	MapChoice        // sorted, rotated / reversed by an environment choice (one deviation)
-	MapReverse       // descending keys
+	MapNative  = iota // Go's randomised order (default outside harnesses)
+	MapSorted         // ascending keys
+	MapChoice         // sorted, rotated / reversed by an environment choice (one deviation)
+	MapReverse        // descending keys
 )
 
 var mapMode atomic.Int32
